@@ -745,9 +745,11 @@ def classify_known(stream, case, impl, failure):
     return None
 
 
-TECHNIQUE = ("Coq proof (key-map and prefix-inference lemmas, step-level spelling equalities on the parser state, a "
-             "bisimulation of the token loop over the pending-value buffer giving whole-line spelling equalities for an "
-             "arbitrary rest of the line, lifted through get_matches_with/do_parse/parse_top) + "
+TECHNIQUE = ("Coq proof (key-map and prefix-inference lemmas, step-level spelling equalities on the parser state, two "
+             "bisimulations of the token loop -- over the pending-value buffer (spellings of an option) and over the "
+             "`--`/trailing-index state (explicit `--`) --, a generic decomposition of the loop into 'run the prefix, then "
+             "the rest' (every recursive call of the loop body is a tail call), an induction over the subcommand tree and "
+             "over chains of rewrites, lifted through get_matches_with/do_parse/parse_top) + "
              "extracted-model/implementation correspondence + metamorphic oracle on the implementation")
 LEVEL_TEXT = ("Machine-checked theorems (Coq 8.16, closed under the global context) about the parser model, for all "
               "commands and strings: aliases (visible or hidden) are keys resolving to the same argument as the canonical "
@@ -762,11 +764,34 @@ LEVEL_TEXT = ("Machine-checked theorems (Coq 8.16, closed under the global conte
               "alias / unique inferred prefix = canonical name, short alias = short name; each also as an equality of "
               "parse_top results for an occurrence at the head of the line (the pending value may cross a subcommand "
               "dispatch: react commutes with recording the subcommand), and `--opt v` = `--opt=v` behind any prefix of "
-              "separate flags for successful lines.  The model is tied to clap by running the extracted model and the real crate on the same generated "
+              "separate flags for successful lines.  Round 3: (1) GENERIC DECOMPOSITION (C08_loop_is_step, C08_run_split): one loop "
+              "iteration is a function `step` returning 'go on from (ls,st)' or the way the loop is left; for EVERY prefix and "
+              "tail, parse_loop (pre ++ tail) = run pre, then parse_loop tail from the state reached; the run reads the tail "
+              "only through the look-ahead of the positional counter correction (C08_run_lookahead_only).  (2) EXPLICIT `--` "
+              "(C08_dashdash_bisim, C08_explicit_dashdash[_loop/_level]): second bisimulation -- loop states equal up to "
+              "l_trailing, parser states equal up to p_trailing_idx -- for all lines of positional-looking tokens, behind any "
+              "prefix, INCLUDING low-index multiples `<src>... <dst>` (the look-ahead cannot tell the bare `--` from a value: "
+              "C08_dashdash_lookahead); class dd_class = no allow_missing_positional / dont_delimit_trailing_values / last(true); "
+              "the documented exceptions (each of those three, an option with an optional value, a subcommand name) and the "
+              "observation that a bare `--` at the very END of a low-index line is not neutral are witnesses replayed on the "
+              "crate.  (3) ANYWHERE IN THE TREE (C08_respell_tree/_top/_anywhere): an occurrence behind an arbitrary prefix of "
+              "its level, at any depth of the subcommand tree (occ_at), for every rewrite that is a level equivalence "
+              "(lvl_equiv: implied by both bisimulation relations and by equality); instances for `--opt=v`/`--opt v` and "
+              "clusters.  (4) COMPOSITION (C08_spelling_compose): any chain of such rewrites leaves parse_top unchanged "
+              "(example: five rewrites, four of them inside a subcommand).  (5) subcommand alias / unique prefix = canonical "
+              "name at whole-line level (C08_sub_name_respell).  (6) NEGATIVE NUMBERS: for an option with "
+              "allow_negative_numbers every `-m` with m in the lexer's number language (`-1`, `-1.`, `-2.5`, `-1e3`; the parser "
+              "model's is_number is proved equal to C13's number_lang) is a value in the detached spelling: `--o -1.` = "
+              "`--o=-1.`, `-o -1.` = `-o-1.` (C08_negnum_*_line).  The model is tied to clap by running the extracted model and the real crate on the same generated "
               "pairs of spellings on every check; an independent metamorphic oracle (both spellings parsed by the real crate "
               "must give identical matches; ambiguous prefixes must fail) is applied to the implementation's output.")
-LEVEL_NOTE = ("Whole-line theorems cover ONE rewritten occurrence at the head of its line (arbitrary parser state at loop "
-              "level), class: single-valued option, no require_equals, value not flag-looking, occurrence accepted, "
-              "subcommand_precedence_over_arg and ignore_errors off, short forms at ValuesDone without short "
-              "flag-subcommands.  Compositions of rewrites, occurrences behind arbitrary prefixes or inside subcommands, "
-              "subcommand alias/prefix at loop level and `--` insertion stay differential (metamorphic stream).")
+LEVEL_NOTE = ("Spelling theorems hold at every loop/parser state of their class; 'anywhere' = behind any prefix the loop runs "
+              "through (hypothesis `run c pre .. = inl (ls', st')`, which every line ending at that level satisfies: "
+              "C08_run_of_done) with the class conditions stated AT the state reached (they are checked by computation in the "
+              "examples; no static characterisation of the reached state is proved, except flag_subcmd_skip = 0: C08_run_keeps_skip0).  "
+              "`--` insertion: levels without allow_missing_positional / dont_delimit_trailing_values / last(true), the `--` not "
+              "directly after an option still waiting for values, at least one positional after it.  Classes of the option "
+              "spellings as before (single-valued option, no require_equals, occurrence accepted, subcommand_precedence_over_arg "
+              "and ignore_errors off, short forms at ValuesDone without short flag-subcommands).  Levels entered through a short "
+              "flag-subcommand cluster (keep_state), help/external subcommands, multi-valued options, require_equals, "
+              "hyphen-value contexts and ignore_errors stay differential (metamorphic stream).")
